@@ -146,7 +146,7 @@ def run(ctx):
 
     ndocs = 600 if T else 70
     for k in range(ndocs):
-        root = rng.choice(['Root'] * 6 + ['Leaf', 'Other', 'Sub', 'Rec', 'Node', 'Node', 'Pt', 'Fix', 'Fix'])
+        root = rng.choice(['Root'] * 6 + ['Leaf', 'Other', 'Sub', 'Rec', 'Node', 'Node', 'Req', 'Nums', 'Pt', 'Fix', 'Fix'])
         v, text = make_doc(root, as_bytes=(k % 3 == 0), strict=(k % 4 == 0), depth=rng.choice([1, 2, 3]))
         docs.append((root, v, text))
     # documents with unknown fields (skipper territory) : wrap / inject
@@ -350,6 +350,16 @@ def run(ctx):
     for _ in range(12000 if T else 600):
         add('random', rng.choice(U.ROOTS), rng.choice(allflags), bytes(rng.choice(alpha) for _ in range(rng.choice([1, 2, 3, 5, 8, 13, 21, 40, 80]))))
 
+    # tables with several required fields: every subset of them omitted (the parse must then fail with `required`)
+    req_fields = {'a': [b'"x"', b'""'], 'b': [b'[1,2]', b'[]'], 'c': [b'{"n":1}', b'{}'], 'd': [b'7']}
+    for mask in range(16):
+        for rep_ in range(2):
+            names = [f for i, f in enumerate('abcd') if mask & (1 << i)]
+            rng.shuffle(names)
+            body = b','.join(b'"' + f.encode() + b'":' + req_fields[f][rep_ % len(req_fields[f])] for f in names)
+            for fl in (0, 1, 2, 4, 31):
+                add('required-subsets', 'Req', fl, b'{' + body + b'}')
+    add('required-subsets', 'Sub', 0, b'{"id":1}'); add('required-subsets', 'Sub', 0, b'{"tag":"t"}')
     # union vectors whose elements hold unions / union vectors themselves (user frames nested inside a union vector parse),
     # type vector first, value vector first, and split
     tree_hand = [
@@ -373,7 +383,7 @@ def run(ctx):
             for _ in range(6): add('union-tree-mutation', 'Node', rng.choice(allflags), U.mutate(rng, text))
     # the same parses on a fresh builder whose allocator moves every block it grows (flatcc_builder_custom_init): a pointer into a
     # builder stack kept across a growing operation is then a heap-use-after-free for ASan, and the result must not depend on the allocator
-    moving = [i for i, c in enumerate(cases) if c[0] in ('valid', 'unknown-fields', 'hand', 'nested-struct-object', 'union-tree', 'union-tree-truncation',
+    moving = [i for i, c in enumerate(cases) if c[0] in ('valid', 'unknown-fields', 'hand', 'nested-struct-object', 'union-tree', 'required-subsets', 'union-tree-truncation',
                                                            'union-tree-mutation', 'all-flags')]
     rest = [i for i, c in enumerate(cases) if c[0] in ('truncation', 'mutation', 'ends-at-end', 'random')]
     moving += rng.sample(rest, min(len(rest), 6000 if T else 1500))
@@ -438,6 +448,16 @@ def run(ctx):
             else:
                 ctx.violation('crash:parse:' + (re.sub(r'[^A-Za-z_:-]+', '_', r[:60])), 'generated parser %s crashed (flags %d): %s' % (root, fl, r[:300]), replay)
             continue
+        if klass == 'required-subsets':
+            # the property's own reading of `(required)`: a document lacking a required field must fail with error `required`, a complete one must parse
+            need = {'Req': [b'"a"', b'"b"', b'"c"'], 'Sub': [b'"tag"']}[root]
+            missing = [x.decode() for x in need if x + b':' not in text]
+            if missing and f[0] == 'OK':
+                ctx.violation('required-field-not-enforced', 'table %s parsed successfully although required field(s) %s are missing (verifier says %s)' % (root, ','.join(missing), f[3]), replay); continue
+            if missing and int(f[2]) != consts['JE_required']:
+                ctx.violation('required-field-wrong-error', 'table %s lacking required field(s) %s fails with error %s instead of `required`' % (root, ','.join(missing), f[2]), replay); continue
+            if not missing and f[0] != 'OK':
+                ctx.violation('required-field-complete-rejected', 'table %s with all required fields present is rejected: %s' % (root, r[:80]), replay); continue
         if f[0] == 'OK':
             stat['ok'] += 1
             end_loc, size, vrc = int(f[1]), int(f[2]), int(f[3])
